@@ -8,6 +8,7 @@ PROPS = {
     "C17": ["u_surrogate"],
     "C14": ["u_apiwrap"],
     "C01": ["u_indexsets"],
+    "C18": ["u_candman"],
 }
 COMMON_ASSUME = [
     "CBMC 6.11 and its C semantics are trusted; double is IEEE-754 binary64 round-to-nearest",
@@ -42,6 +43,9 @@ PROP_META = {
   "level_text": "pending", "level_note": "pending", "assumptions": COMMON_ASSUME, "not_decided": [],
  },
  "C01": {
+  "level_text": "pending", "level_note": "pending", "assumptions": COMMON_ASSUME, "not_decided": [],
+ },
+ "C18": {
   "level_text": "pending", "level_note": "pending", "assumptions": COMMON_ASSUME, "not_decided": [],
  },
 }
